@@ -1,0 +1,77 @@
+//go:build verif
+
+package fpgo
+
+// Verification hooks (build tag `verif` only; see /verif/DESIGN.md section 8).
+// verifPoint(name) marks a named program point.  With a controller installed, the goroutine reaching
+// the point hands control to it (the controller may park it to force a schedule, inject a delay, or log);
+// without one it is a no-op.  Read-only accessors expose internal counters to the harness.
+
+import (
+	"bytes"
+	"runtime"
+	"strconv"
+	"sync/atomic"
+)
+
+// VerifController decides what happens when an instrumented goroutine reaches a named point.
+type VerifController interface {
+	Reach(gid int64, point string)
+}
+
+var verifCtl atomic.Value // holds *verifCtlBox
+
+type verifCtlBox struct{ c VerifController }
+
+// VerifSetController installs (or, with nil, removes) the controller.
+func VerifSetController(c VerifController) { verifCtl.Store(&verifCtlBox{c}) }
+
+// VerifGoID returns the current goroutine id (parsed from the stack header; verif builds only).
+func VerifGoID() int64 {
+	var buf [64]byte
+	n := runtime.Stack(buf[:], false)
+	b := buf[:n]
+	b = bytes.TrimPrefix(b, []byte("goroutine "))
+	i := bytes.IndexByte(b, ' ')
+	if i < 0 {
+		return -1
+	}
+	id, _ := strconv.ParseInt(string(b[:i]), 10, 64)
+	return id
+}
+
+// VerifPoint is verifPoint for the sub-packages (worker, network).
+func VerifPoint(point string) { verifPoint(point) }
+
+func verifPoint(point string) {
+	box, _ := verifCtl.Load().(*verifCtlBox)
+	if box == nil || box.c == nil {
+		return
+	}
+	box.c.Reach(VerifGoID(), point)
+}
+
+// VerifNodeCount exposes the node-pool bookkeeping of a LinkedListQueue: the counter and the actual
+// length of the free list (walked, bounded by limit).
+func (q *LinkedListQueue[T]) VerifNodeCount(limit int) (counter int, walked int) {
+	n := q.nodePoolFirst
+	for n != nil && walked < limit {
+		walked++
+		n = n.Next
+	}
+	return q.nodeCount, walked
+}
+
+// VerifState exposes the occupancy of a BufferedChannelQueue (channel length, pool count) under its lock.
+func (q *BufferedChannelQueue[T]) VerifState() (chanLen int, poolCount int) {
+	q.lock.RLock()
+	defer q.lock.RUnlock()
+	return len(q.blockingQueue), q.pool.Count()
+}
+
+// VerifSubscriberCount exposes the number of registered subscriptions of a Publisher.
+func (publisherSelf *PublisherDef[T]) VerifSubscriberCount() int {
+	n := 0
+	publisherSelf.doSubscribeSafe(func() { n = len(publisherSelf.subscribers) })
+	return n
+}
